@@ -44,6 +44,8 @@ if ! (cd "$REPO" && \
 fi
 python3 "$VERIF/bin/merge_facts.py" "$TMPF" "$OUT.tmp" "$HASH" "$REPO" || { echo "ERROR check-broken: fact merge failed" >&2; exit 2; }
 mv "$OUT.tmp" "$OUT"
-# prune old fact files (keep the 12 newest)
-ls -1t "$CACHE"/facts/*.json 2>/dev/null | tail -n +13 | xargs -r rm -f
+# prune old fact files: keep the 40 newest, and never touch anything younger than 20 minutes (a check may still be reading it)
+ls -1t "$CACHE"/facts/*.json 2>/dev/null | tail -n +41 | while read -r f; do
+  if [ -n "$(find "$f" -mmin +20 2>/dev/null)" ]; then rm -f "$f"; fi
+done
 echo "$OUT"
